@@ -248,6 +248,18 @@ def check_surface(case, ctx):
             ok_t = all(min(max(abs(a - b) for a, b in zip(q_, r_)) for r_ in after) <= 1e-9 * sc_ for q_ in before)
         ctx.check([list(p_) for t_ in ts.trims for p_ in tpts(t_)][:len(loop)] == [list(p_) for p_ in (loop if kind_ != 'container' else loop[:3] + loop[2:])][:len(loop)],
                   'transpose/input-trims-modified', 'transpose(inplace=False) changed the trim curves of its input', what='transpose')
+        if ok_t and kind_ in ('freeform', 'spline'):
+            # the sense of a trim whose 'reversed' flag is unset is derived from its orientation (trimming.fix_trim_curves): the same region
+            # must be kept before and after the transposition (not its complement)
+            from geomdl import trimming, tessellate
+            na_nb = []
+            for surf_ in (copy.deepcopy(ts), operations.transpose(copy.deepcopy(ts))):
+                surf_.sample_size = 12
+                trimming.fix_trim_curves(surf_)
+                surf_.tessellator = tessellate.TrimTessellate()
+                na_nb.append(len(surf_.faces))
+            ctx.check(abs(na_nb[0] - na_nb[1]) <= 0.2 * max(na_nb), 'transpose/trim-sense-flipped', 'trimmed tessellation keeps %d faces before and %d '
+                      'after transposition (sense derived from the trim orientation): the complement region is kept' % tuple(na_nb), what='transpose')
         ctx.check(ok_t, 'transpose/trims-not-transposed', 'transpose of a trimmed surface: the trim boundary no longer bounds the same region of the '
                   'surface (its curves keep their (u, v) coordinates while u and v swap roles)', what='transpose')
     # flip: net reversed in both directions
